@@ -12,6 +12,7 @@ import (
 
 	"cosmossdk.io/math"
 
+	transfertypes "github.com/cosmos/ibc-go/v8/modules/apps/transfer/types"
 	channeltypes "github.com/cosmos/ibc-go/v8/modules/core/04-channel/types"
 
 	commontypes "github.com/dymensionxyz/dymension/v3/x/common/types"
@@ -402,7 +403,14 @@ func (m *pkMon) checkFork(prev, cur *pkSnap, ri int, lv uint64, op string) {
 			} else if orig, ok := m.h.sentPkts[[2]uint64{uint64(q.Chan), q.Seq}]; ok {
 				got := ck.GetPacketCommitment(m.h.f.Ctx, pkPort, m.h.chans[q.Chan].Hub, q.Seq)
 				if string(got) != string(channeltypes.CommitPacket(m.h.f.App.AppCodec(), orig)) {
-					m.violate("C03/packets/restored-commitment-differs-from-original-packet", q.Name+" (fulfilled by "+q.Target+", original sender "+q.Orig+")")
+					sig := "C03/packets/restored-commitment-differs-from-original-packet"
+					// the specific shape of the recorded finding: the packet was re-encoded by a fulfilment (sorted JSON)
+					// while the bytes the hub had sent were not in that canonical form (denommetadata memo middleware)
+					var d transfertypes.FungibleTokenPacketData
+					if q.Orig != "-" && transfertypes.ModuleCdc.UnmarshalJSON(orig.Data, &d) == nil && string(d.GetBytes()) != string(orig.Data) {
+						sig += "/fulfilled-packet-sent-as-non-canonical-json"
+					}
+					m.violate(sig, q.Name+" (fulfilled by "+q.Target+", original sender "+q.Orig+")")
 				}
 			}
 		}
